@@ -232,9 +232,7 @@ def diffPre (gx gy : Gh) (q : GhQ) (c : Two) : Bool × Two :=
   else if c.x.dim == 0 then (true, onX (fun x => setEmpty (setChanges true x)) c)
   else
     -- y.contains(x)
-    let sw : Two := if c.al then c else { x := c.y, y := c.x, al := false }
-    let r := contains gy gx q sw
-    let c : Two := if c.al then r else { x := r.y, y := r.x, al := false }
+    let c := (contains gy gx q c.swap).swap
     if gx.chg then (true, onX (fun x => setEmpty (setChanges true x)) c)
     else
       let r := onYb (minimize gy) c
